@@ -137,7 +137,14 @@ class SymNum(Sym):
             a, b = _num2(self, o)
         except Unmodelled:
             return NotImplemented
-        return _wrap(z3.simplify(f(b, a) if r else f(a, b)))
+        res = _wrap(z3.simplify(f(b, a) if r else f(a, b)))
+        u1, u2 = getattr(self, "undef", None), getattr(o, "undef", None)
+        if u1 is not None or u2 is not None:
+            # IEEE NaN propagates through every arithmetic operation (also nan * 0)
+            return SymNpReal(res.e if not z3.is_int(res.e) else z3.ToReal(res.e),
+                             z3.Or(u1 if u1 is not None else z3.BoolVal(False), u2 if u2 is not None else z3.BoolVal(False)),
+                             np_=bool(getattr(self, "_np", False) or getattr(o, "_np", False)))
+        return res
 
     def __add__(self, o): return self._bin(o, lambda a, b: a + b)
     def __radd__(self, o): return self._bin(o, lambda a, b: a + b, True)
@@ -166,6 +173,11 @@ class SymNum(Sym):
             a = z3.ToReal(a)
         if z3.is_int(b):
             b = z3.ToReal(b)
+        un, ud = getattr(num, "undef", None), getattr(den, "undef", None)
+        if not getattr(den, "_np", False) and (un is not None or ud is not None):
+            # python floats, one of them possibly NaN: x / 0.0 still raises
+            VC.cur().no_exception("ZeroDivisionError", b != 0, "float division by zero")
+            return SymNpReal(a / b, z3.Or(un if un is not None else z3.BoolVal(False), ud if ud is not None else z3.BoolVal(False)), np_=False)
         if getattr(den, "_np", False):
             # numpy float64 denominator: x/0 is inf or nan (a warning, no exception); every ordered
             # comparison of the result with a finite number that could make it "small" is False
@@ -616,7 +628,10 @@ def sb_float(x=0.0):
         return SymReal(z3.ToReal(x.e))
     if isinstance(x, SymReal):
         return x
-    return float(x)
+    r = float(x)
+    if r != r:
+        return SymNpReal(z3.RealVal(0), z3.BoolVal(True), np_=False)      # float("nan")
+    return r
 
 
 def sb_abs(x):
@@ -708,11 +723,12 @@ class NpProxy:
         if _is_sym(x):
             vc = VC.cur()
             x = sb_float(x)
-            vc.no_exception("ValueError/nan", x.e >= 0, "sqrt of a negative number")
             r = vc.fresh_real("sqrt")
             vc.pc.append(r.e >= 0)
-            vc.pc.append(r.e * r.e == x.e)
-            return SymNpReal(r.e)
+            vc.pc.append(z3.Implies(x.e >= 0, r.e * r.e == x.e))
+            u = getattr(x, "undef", None)
+            # numpy: sqrt of a negative number (or of NaN) is NaN with a warning, not an exception
+            return SymNpReal(r.e, z3.Or(x.e < 0, u if u is not None else z3.BoolVal(False)))
         return self._real.sqrt(x)
 
     def array(self, x, *a, **k):
